@@ -13,7 +13,9 @@
 //   meta: sig=<stable operand signature>  uf=<hex CpuRWFlags undefined per database>  fx=<letters>  vs=<32|64 vsib lane bits>
 //         mb=<free gp id usable as base of the M-form>  bo=<bits> (bit-offset operand 1 is reduced modulo bits)
 //   fx letters: n = non-deterministic result (W only), x = x87 (W on non-x87 state only), m = MMX register image, d = div/idiv image,
-//               c = ecx in {0,1}, p = probe (run only if every reported feature is on the host), M = no M check
+//               c = ecx in {0,1}, p = probe (run only if every reported feature is on the host), M = no M check,
+//               u = uniqueness probe: two register operands share one register on purpose; a #UD is the expected outcome when the
+//                   answer flags one of them kUnique (or reports both as read), and a finding otherwise
 //
 // The oracle is harness code: the machine image before/after executing the instruction assembled by x86::Assembler.
 #include <asmjit/core.h>
@@ -222,6 +224,85 @@ static std::string stale_state_diff(Arch arch, const BaseInst& bi, const Operand
   return std::string();
 }
 
+// --- fixed / implicit registers (kRegPhysId, kMemPhysId, phys_id) -------------------------------------------------------
+// What the flag means to a consumer (the register allocator): a flagged operand MUST be the register phys_id; an operand that
+// is not flagged may be ANY register of its class. Both halves are tried against the real assembler:
+//   ["p", phys, err]   flagged, and phys_id differs from the register of the case: err = emit error with the operand := phys_id
+//   ["a", alt, err]    not flagged: err = 0 when the instruction with the operand := another register (up to 3 tried) is emitted
+// Only allocatable groups (GP, vector, mask, MMX) and base registers of memory operands are probed.
+static bool phys_group(const Reg& r) {
+  return r.is_gp() || r.is_vec() || r.reg_type() == RegType::kMask || r.reg_type() == RegType::kX86_Mm;
+}
+
+template<typename EmitFn>
+static std::string phys_probes(Arch A, const Operand* ops, int nops, const InstRWInfo& rw, bool has_extra, const Reg& extra, EmitFn&& emit) {
+  std::string s = "[";
+  auto used = [&](const Reg& like, uint32_t id, int skip, bool skip_base) -> bool {
+    for (int j = 0; j < nops; j++) {
+      if (ops[j].is_reg() && j != skip) { const Reg& r = ops[j].as<Reg>(); if (r.reg_group() == like.reg_group() && r.id() == id) return true; }
+      if (ops[j].is_mem()) {
+        const x86::Mem& m = ops[j].as<x86::Mem>();
+        if (like.is_gp() && m.has_base_reg() && !(skip_base && j == skip) && m.base_id() == id) return true;
+        if (m.has_index_reg() && Reg::from_type_and_id(m.index_type(), m.index_id()).reg_group() == like.reg_group() && m.index_id() == id) return true;
+      }
+    }
+    if (has_extra && extra.reg_group() == like.reg_group() && extra.id() == id) return true;
+    return false;
+  };
+  auto add = [&](int i, const char* kind, uint32_t id, Error e) {
+    char b[64]; snprintf(b, sizeof b, "%s[%d,\"%s\",%u,%u]", s.size() > 1 ? "," : "", i, kind, id, unsigned(e)); s += b;
+  };
+  for (int i = 0; i < nops; i++) {
+    const OpRWInfo& o = rw.operand(size_t(i));
+    Operand ops2[6];
+    for (int j = 0; j < nops; j++) ops2[j] = ops[j];
+    if (ops[i].is_reg()) {
+      const Reg& r = ops[i].as<Reg>();
+      if (!phys_group(r)) continue;
+      if (o.has_op_flag(OpRWFlags::kRegPhysId)) {
+        if (o.phys_id() == r.id()) continue;
+        ops2[i] = Reg::from_type_and_id(r.reg_type(), o.phys_id());
+        add(i, "p", o.phys_id(), emit(ops2));
+      }
+      else {
+        uint32_t top = r.reg_type() == RegType::kGp8Hi || (r.reg_type() == RegType::kGp8Lo && A == Arch::kX86) ? 4u : 8u;
+        Error last = Error::kOk; uint32_t alt = 0; int tried = 0;
+        for (uint32_t k = 1; k <= top && tried < 3; k++) {
+          uint32_t id = k % top;
+          if (id == r.id() || (r.is_gp() && id == 4 && top == 8) || (r.reg_type() == RegType::kMask && id == 0) || used(r, id, i, false)) continue;
+          ops2[i] = Reg::from_type_and_id(r.reg_type(), id);
+          last = emit(ops2); alt = id; tried++;
+          if (last == Error::kOk) break;
+        }
+        if (tried) add(i, "a", alt, last);
+      }
+    }
+    else if (ops[i].is_mem()) {
+      const x86::Mem& m = ops[i].as<x86::Mem>();
+      if (!m.has_base_reg()) continue;
+      Reg br = Reg::from_type_and_id(m.base_type(), m.base_id());
+      if (!br.is_gp()) continue;
+      if (o.has_op_flag(OpRWFlags::kMemPhysId)) {
+        if (o.phys_id() == br.id()) continue;
+        x86::Mem m2 = m; m2.set_base_id(o.phys_id()); ops2[i] = m2;
+        add(i, "P", o.phys_id(), emit(ops2));
+      }
+      else {
+        Error last = Error::kOk; uint32_t alt = 0; int tried = 0;
+        for (uint32_t id : { 3u, 1u, 2u, 6u, 7u, 0u }) {
+          if (tried >= 3) break;
+          if (id == br.id() || used(br, id, i, true)) continue;
+          x86::Mem m2 = m; m2.set_base_id(id); ops2[i] = m2;
+          last = emit(ops2); alt = id; tried++;
+          if (last == Error::kOk) break;
+        }
+        if (tried) add(i, "A", alt, last);
+      }
+    }
+  }
+  return s + "]";
+}
+
 static std::string feat_json(Arch arch, const CpuFeatures& f) {
   std::string s = "[";
   bool first = true;
@@ -288,7 +369,7 @@ static int mode_table(const Args& args) {
     InstRWInfo rw; memset(&rw, 0, sizeof rw);
     CpuFeatures feat;
     Error e_rw = Error::kInvalidArgument, e_f = Error::kInvalidArgument, e_v = Error::kInvalidArgument, e_e = Error::kInvalidArgument;
-    std::string enc = "none", bytes, stale;
+    std::string enc = "none", bytes, stale, pa = "[]";
     if (ok && inst_id) {
       e_v = InstAPI::validate(A, bi, ops, size_t(c.nops));
       e_rw = InstAPI::query_rw_info(A, bi, ops, size_t(c.nops), &rw);
@@ -300,6 +381,14 @@ static int mode_table(const Args& args) {
       e_e = a.emit_op_array(inst_id, ops, size_t(c.nops));
       a.reset_inst_options(); a.reset_extra_reg();
       if (e_e == Error::kOk && a.offset() > off0) { enc = enc_class(a.buffer_data() + off0, a.offset() - off0); bytes = hexstr(a.buffer_data() + off0, a.offset() - off0); }
+      if (e_e == Error::kOk && e_rw == Error::kOk)
+        pa = phys_probes(A, ops, c.nops, rw, c.extra_s != "-", extra, [&](const Operand* o2) -> Error {
+          if (c.extra_s != "-") a.set_extra_reg(extra);
+          a.set_inst_options(InstOptions(c.opts));
+          Error e = a.emit_op_array(inst_id, o2, size_t(c.nops));
+          a.reset_inst_options(); a.reset_extra_reg();
+          return e;
+        });
     }
     char b[512];
     snprintf(b, sizeof b, "{\"id\":%s,\"iid\":%u,\"v\":%u,\"rw\":%u,\"f\":%u,\"e\":%u,\"enc\":\"%s\",\"rf\":%u,\"wf\":%u,\"rmf\":%s,\"if\":%u,\"bytes\":\"%s\",\"ops\":",
@@ -309,6 +398,7 @@ static int mode_table(const Args& args) {
     out += b;
     out += rw_json(rw, c.nops);
     if (!stale.empty()) out += ",\"stale\":" + jstr(stale);
+    out += ",\"pa\":" + pa;
     out += ",\"feat\":" + feat_json(A, feat) + "}\n";
     if (out.size() > (1 << 20)) { fwrite(out.data(), 1, out.size(), stdout); out.clear(); }
   }
@@ -321,7 +411,9 @@ static int mode_table(const Args& args) {
 //   For every case (register form + BaseInst options {sae}/{er} + optional {k}/{z} extra register): query_rw_info; for every register
 //   operand the answer flags kRegMem with rm_size = N the same instruction (same options, same extra register) is rebuilt with that
 //   operand replaced by [base] of size N and handed to InstAPI::validate() and to x86::Assembler of the same arch mode.
-//   record: {"id","iid","v","rw","e","bytes","rmflag0":<kRegMem operands with rm_size 0>,"claims":[[op,N,validate-error,emit-error,"bytes",validate-error-is-kInvalidImmediate],..],"ops":[..]}
+//   record: {"id","iid","v","rw","e","bytes","rmflag0":<kRegMem operands with rm_size 0>,"claims":[[op,N,validate-error,emit-error,"bytes",validate-error-is-kInvalidImmediate,
+//            query_features-error of the memory form,[features of the memory form]],..],"ops":[..],"rmf":<rm_feature name>,"ff":<query_features error>,"feat":[features of the register form]}
+//   (rm_feature: the features the memory form needs beyond those of the register form must be announced by rm_feature - Python judges)
 
 static int mode_rmopt(const Args& args) {
   std::ifstream f(args.str("cases"));
@@ -387,9 +479,12 @@ static int mode_rmopt(const Args& args) {
           Error ev = InstAPI::validate(A, bi, ops2, size_t(c.nops));
           std::string mbytes;
           Error ee = emit(ops2, &mbytes);
+          CpuFeatures mfeat;
+          Error ef = InstAPI::query_features(A, bi, ops2, size_t(c.nops), &mfeat);
           char b[160];
-          snprintf(b, sizeof b, "%s[%d,%u,%u,%u,\"%s\",%d]", claims.size() > 1 ? "," : "", i, o.rm_size(), unsigned(ev), unsigned(ee), mbytes.c_str(), ev == Error::kInvalidImmediate ? 1 : 0);
+          snprintf(b, sizeof b, "%s[%d,%u,%u,%u,\"%s\",%d,%u,", claims.size() > 1 ? "," : "", i, o.rm_size(), unsigned(ev), unsigned(ee), mbytes.c_str(), ev == Error::kInvalidImmediate ? 1 : 0, unsigned(ef));
           claims += b;
+          claims += feat_json(A, mfeat) + "]";
         }
       }
     }
@@ -398,6 +493,11 @@ static int mode_rmopt(const Args& args) {
     snprintf(b, sizeof b, "{\"id\":%s,\"iid\":%u,\"v\":%u,\"rw\":%u,\"e\":%u,\"bytes\":\"%s\",\"rmflag0\":%u,\"claims\":", c.id.c_str(), unsigned(inst_id), unsigned(e_v), unsigned(e_rw), unsigned(e_e), bytes.c_str(), rmflag0);
     out += b;
     out += claims;
+    {
+      CpuFeatures rfeat;
+      Error ef = (ok && inst_id) ? InstAPI::query_features(A, bi, ops, size_t(c.nops), &rfeat) : Error::kInvalidArgument;
+      out += ",\"rmf\":" + jstr(rw.rm_feature() ? feature_name(A, rw.rm_feature()) : std::string()) + ",\"ff\":" + std::to_string(unsigned(ef)) + ",\"feat\":" + feat_json(A, rfeat);
+    }
     out += ",\"ops\":" + rw_json(rw, c.nops) + "}\n";
     if (out.size() > (1 << 20)) { fwrite(out.data(), 1, out.size(), stdout); out.clear(); }
   }
@@ -601,7 +701,9 @@ struct Ctx {
   uint64_t flags_in;
   uint64_t gp_out[16];
   uint64_t flags_out;
-  uint8_t pad1[4096 - 8 * 36];
+  uint64_t gate_host_rsp, gate_stack;      // 64 -> 32 bit gate
+  uint32_t far_off; uint16_t far_sel, far_pad;
+  uint8_t pad1[4096 - 8 * 36 - 24];
   uint8_t xs_in[4096];
   uint8_t xs_out[4096];
 };
@@ -609,7 +711,15 @@ struct Ctx {
 static Ctx* CTX;
 static uint8_t* ARENA_P;      // arena (guard pages around)
 static uint8_t* STACK_MID;    // scratch stack pointer for the code under test
+static uint8_t* STACK32_MID;  // same below 4 GB (32-bit mode)
 static uint8_t* CODE;         // RWX buffer
+static uint8_t* CODE32;       // RWX buffer below 4 GB: 32-bit trampolines, entered through rw_gate32
+
+// 64 -> 32 bit gate: a far call to the 32-bit user code segment (selector 0x23) runs the asmjit-assembled 32-bit trampoline in
+// compatibility mode on a stack below 4 GB; the trampoline ends with retf. The gate itself is 64-bit code that must live below 4 GB
+// too (the far call pushes a 32-bit return address), so it is assembled into CODE32's neighbourhood at start-up.
+typedef void (*Fn)();
+static Fn GATE32;
 static const size_t SLOT = 2048, NSLOT = 8;
 static uint64_t XMASK;
 static uint32_t X_YMM = 576, X_K = 1088, X_ZHI = 1152, X_H16 = 1664;
@@ -657,7 +767,43 @@ static bool sandbox_init() {
   STACK_MID = st + 4096 * 9;
   CODE = (uint8_t*)mmap(nullptr, SLOT * NSLOT, PROT_READ | PROT_WRITE | PROT_EXEC, MAP_PRIVATE | MAP_ANONYMOUS, -1, 0);
   if (CODE == MAP_FAILED) return false;
-  memset(CTX, 0, sizeof(Ctx));
+  {
+    uint8_t* st32 = (uint8_t*)map32(4096 * 18, PROT_NONE);
+    uint8_t* gs32 = (uint8_t*)map32(65536, PROT_READ | PROT_WRITE);
+    CODE32 = (uint8_t*)map32(SLOT * NSLOT, PROT_READ | PROT_WRITE | PROT_EXEC);
+    if (!st32 || !gs32 || !CODE32) return false;
+    mprotect(st32 + 4096, 4096 * 16, PROT_READ | PROT_WRITE);
+    STACK32_MID = st32 + 4096 * 9;
+    uint8_t* gate = (uint8_t*)map32(4096, PROT_READ | PROT_WRITE | PROT_EXEC);
+    if (!gate) return false;
+    memset(CTX, 0, sizeof(Ctx));
+    CTX->gate_stack = uint64_t(uintptr_t(gs32 + 65536 - 256));
+    CTX->far_sel = 0x23;
+    CodeHolder code;
+    code.init(Environment(Arch::kX64));
+    x86::Assembler a(&code);
+    using namespace x86;
+    auto abs = [](const void* p, uint32_t size) { x86::Mem m(uint64_t(uintptr_t(p)), size); m.set_addr_abs(); return m; };
+    a.push(rbx); a.push(rbp); a.push(r12); a.push(r13); a.push(r14); a.push(r15);
+    a.pushfq();
+    a.mov(abs(&CTX->gate_host_rsp, 8), rsp);
+    a.mov(rsp, abs(&CTX->gate_stack, 8));
+    a.mov(eax, 0x2b);
+    static const uint8_t seg_set[] = { 0x8E, 0xD8, 0x8E, 0xC0 };             // mov ds, eax ; mov es, eax
+    a.embed(seg_set, sizeof seg_set);
+    uint32_t far_at = uint32_t(uintptr_t(&CTX->far_off));
+    uint8_t lcall[7] = { 0xFF, 0x1C, 0x25, uint8_t(far_at), uint8_t(far_at >> 8), uint8_t(far_at >> 16), uint8_t(far_at >> 24) };   // call far m16:32 [abs]
+    a.embed(lcall, sizeof lcall);
+    a.xor_(eax, eax);
+    a.embed(seg_set, sizeof seg_set);
+    a.mov(rsp, abs(&CTX->gate_host_rsp, 8));
+    a.popfq();
+    a.pop(r15); a.pop(r14); a.pop(r13); a.pop(r12); a.pop(rbp); a.pop(rbx);
+    a.ret();
+    if (a.offset() > 4096) return false;
+    memcpy(gate, a.buffer_data(), a.offset());
+    GATE32 = (Fn)gate;
+  }
   CTX->mxcsr_default = 0x1F80;
   // alternate signal stack + handlers
   static uint8_t altstack[1 << 16];
@@ -729,10 +875,9 @@ static inline void sanitize_fp() {
 
 enum { RES_OK = 0, RES_ILL, RES_SEGV, RES_FPE, RES_BUS, RES_TRAP };
 
-typedef void (*Fn)();
 
 // Runs one image. Never lets a fault of the code under test escape.
-static int run_image(const State& in, State& out, Fn fn) {
+static int run_image(const State& in, State& out, Fn fn, bool is32 = false) {
   memcpy(ARENA_P, in.b + F_MEM, ARENA);
   for (int i = 0; i < 16; i++) CTX->gp_in[i] = in.gp(i);
   CTX->flags_in = rflags_from(in.fl);
@@ -743,7 +888,8 @@ static int run_image(const State& in, State& out, Fn fn) {
   int sig = sigsetjmp(JB, 0);
   if (sig == 0) {
     IN_SANDBOX = 1;
-    fn();
+    if (is32) { CTX->far_off = uint32_t(uintptr_t(fn)); GATE32(); }
+    else fn();
     IN_SANDBOX = 0;
   }
   else {
@@ -754,13 +900,58 @@ static int run_image(const State& in, State& out, Fn fn) {
   out = in;   // carries the non-diffed fields' defaults
   from_xsave(CTX->xs_out, out);
   for (int i = 0; i < 16; i++) out.gp(i) = CTX->gp_out[i];
+  if (is32) {
+    // compatibility mode sees eax..edi, xmm/ymm/zmm0-7, k0-7, mm0-7: everything else is no part of the experiment
+    for (int i = 0; i < 8; i++) out.gp(i) = (in.gp(i) & 0xFFFFFFFF00000000ull) | (CTX->gp_out[i] & 0xFFFFFFFFull);
+    for (int i = 8; i < 16; i++) out.gp(i) = in.gp(i);
+    memcpy(out.b + F_VEC + 64 * 8, in.b + F_VEC + 64 * 8, 64 * 24);
+  }
   out.fl |= fl_from(CTX->flags_out, 0);
   memcpy(out.b + F_MEM, ARENA_P, ARENA);
   return RES_OK;
 }
 
 // Emits prologue + instruction + epilogue into `slot`. Returns an error string or empty.
-static std::string make_code(int slot, InstId inst_id, uint32_t opts, bool has_extra, const Reg& extra, const Operand* ops, int nops, std::string* inst_bytes, Error* emit_err) {
+static std::string make_code32(int slot, InstId inst_id, uint32_t opts, bool has_extra, const Reg& extra, const Operand* ops, int nops, std::string* inst_bytes, Error* emit_err) {
+  static NullHandler nh;
+  CodeHolder code;
+  code.init(Environment(Arch::kX86));
+  code.set_error_handler(&nh);
+  x86::Assembler a(&code);
+  auto abs = [](const void* p, uint32_t size) { return x86::Mem(uint64_t(uintptr_t(p)), size); };
+  using namespace x86;
+  a.mov(abs(&CTX->host_rsp, 4), esp);
+  a.mov(eax, uint32_t(XMASK)); a.xor_(edx, edx);
+  a.xrstor(abs(CTX->xs_in, 0));
+  a.push(abs(&CTX->flags_in, 4));
+  a.popfd();
+  for (uint32_t i = 0; i < 8; i++) a.mov(gpd(i), abs(&CTX->gp_in[i], 4));
+  size_t off0 = a.offset();
+  if (has_extra) a.set_extra_reg(extra);
+  a.set_inst_options(InstOptions(opts));
+  Error e = a.emit_op_array(inst_id, ops, size_t(nops));
+  a.reset_inst_options(); a.reset_extra_reg();
+  *emit_err = e;
+  if (e != Error::kOk) return "assembler refused the instruction";
+  size_t off1 = a.offset();
+  if (inst_bytes) *inst_bytes = hexstr(a.buffer_data() + off0, off1 - off0);
+  for (uint32_t i = 0; i < 8; i++) a.mov(abs(&CTX->gp_out[i], 4), gpd(i));
+  a.mov(esp, abs(&CTX->host_rsp, 4));
+  a.pushfd();
+  a.pop(abs(&CTX->flags_out, 4));
+  a.mov(eax, uint32_t(XMASK)); a.xor_(edx, edx);
+  a.xsave(abs(CTX->xs_out, 0));
+  a.fninit();
+  a.ldmxcsr(abs(&CTX->mxcsr_default, 4));
+  if (HAVE_AVX) a.vzeroupper();
+  a.retf();
+  if (a.offset() > SLOT) return "trampoline too large";
+  memcpy(CODE32 + SLOT * slot, a.buffer_data(), a.offset());
+  return std::string();
+}
+
+static std::string make_code(int slot, InstId inst_id, uint32_t opts, bool has_extra, const Reg& extra, const Operand* ops, int nops, std::string* inst_bytes, Error* emit_err, bool is32 = false) {
+  if (is32) return make_code32(slot, inst_id, opts, has_extra, extra, ops, nops, inst_bytes, emit_err);
   static NullHandler nh;
   CodeHolder code;
   code.init(Environment(Arch::kX64));
@@ -857,7 +1048,7 @@ struct ImageFix {
   // gp registers that must hold a fixed value (addressing), vsib index register, hints
   int n_gp = 0; int gp_id[6]; uint64_t gp_val[6];
   int vs_reg = -1, vs_bits = 0;
-  bool div = false, x87 = false, mmx = false, ecx01 = false;
+  bool div = false, x87 = false, mmx = false, ecx01 = false, is32 = false;
   int bo_reg = -1, bo_hi = 0, bo_bits = 0;
   int div_reg = -1, div_hi = 0; bool div_mem = false;
 };
@@ -909,6 +1100,10 @@ static void gen_image(Rng& r, State& s, const ImageFix& fx, int vec_style) {
     else for (int i = 0; i < 8; i++) { int64_t x = int64_t(r.below(64)) - 32; memcpy(v + 8 * i, &x, 8); }
   }
   for (int i = 0; i < fx.n_gp; i++) s.gp(fx.gp_id[i]) = fx.gp_val[i];
+  if (fx.is32) {
+    s.gp(4) = uint64_t(uintptr_t(STACK32_MID));
+    for (int i = 0; i < 8; i++) s.gp(i) &= 0xFFFFFFFFull;
+  }
 }
 
 // --- access sets ----------------------------------------------------------------------------------------------------
@@ -1006,9 +1201,16 @@ static void build_acc(const Case& c, const Operand* ops, int nops, bool has_extr
 struct Viol { std::string key, what, line; };
 
 struct Stats {
+  uint64_t cases32 = 0, executed_cases32 = 0, runs32 = 0;
   uint64_t cases = 0, executed_cases = 0, nontrivial_cases = 0, runs = 0, runs_ok = 0, sigill = 0, segv = 0, fpe = 0, bus = 0, trap = 0;
   uint64_t r_runs = 0, r_locations_flipped = 0, m_forms = 0, m_runs = 0, m_fault = 0, asm_refused = 0, unsupported = 0, all_fault_cases = 0;
   uint64_t changed_bytes = 0, flags_changed = 0, zext_checked = 0, passthrough_seen = 0, nongp_outside_mask = 0;
+  // zero extension claims (every byte reported zero-extended, changed by the run or not)
+  uint64_t zext_unchanged_checked = 0, zext_vec_checked = 0, zext_vec_beyond_operand_size = 0, zext_vec_beyond_nonzero = 0, zext_skipped_undefined = 0, zext_vec_nonzero = 0, zext_passthrough_judged = 0, zext_passthrough_beyond_size = 0, zext_nonzero_operand_not_written = 0, zext_passthrough_operand_not_written = 0;
+  // InstRWFlags::kMovOp
+  uint64_t movop_cases = 0, movop_runs_distinct = 0, movop_runs_same_reg = 0, movop_flag_not_consumed = 0;
+  // uniqueness probes
+  uint64_t uniq_cases = 0, uniq_ud = 0, uniq_ud_flagged = 0, uniq_ud_both_read = 0, uniq_no_ud = 0, uniq_no_ud_flagged = 0;
 };
 
 static std::string opn(int i) { return i == 6 ? std::string("extra") : "op" + std::to_string(i); }
@@ -1088,9 +1290,13 @@ struct Runner {
 
   void run_case(const Case& c) {
     st.cases++;
+    const bool is32 = c.arch != "x64";
+    const Arch ARCH = is32 ? Arch::kX86 : Arch::kX64;
+    uint8_t* const code_base = is32 ? CODE32 : CODE;
+    if (is32) st.cases32++;
     uint64_t ea0 = uint64_t(uintptr_t(ARENA_P)) + EA_OFF;
     Operand ops[6];
-    InstId inst_id = InstAPI::string_to_inst_id(Arch::kX64, c.name.c_str(), c.name.size());
+    InstId inst_id = InstAPI::string_to_inst_id(ARCH, c.name.c_str(), c.name.size());
     char rec[160];
     if (!inst_id || !build_ops(c, ops, ea0)) { st.unsupported++; snprintf(rec, sizeof rec, "[%s,\"bad\"],", c.id.c_str()); per_case += rec; return; }
     Reg extra;
@@ -1104,14 +1310,14 @@ struct Runner {
     }
     InstRWInfo rw; memset(&rw, 0, sizeof rw);
     CpuFeatures feat;
-    Error e_rw = InstAPI::query_rw_info(Arch::kX64, bi, ops, size_t(c.nops), &rw);
+    Error e_rw = InstAPI::query_rw_info(ARCH, bi, ops, size_t(c.nops), &rw);
     {
-      std::string stale = stale_state_diff(Arch::kX64, bi, ops, c.nops, rw, e_rw);
+      std::string stale = stale_state_diff(ARCH, bi, ops, c.nops, rw, e_rw);
       if (!stale.empty()) violation("Q:" + c.name + ":" + c.sig + ":answer-depends-on-previous-content-of-out", "query_rw_info answers differently " + stale, c);
     }
-    Error e_f = InstAPI::query_features(Arch::kX64, bi, ops, size_t(c.nops), &feat);
+    Error e_f = InstAPI::query_features(ARCH, bi, ops, size_t(c.nops), &feat);
     std::string bytes; Error e_e;
-    std::string err = make_code(0, inst_id, c.opts, has_extra, extra, ops, c.nops, &bytes, &e_e);
+    std::string err = make_code(0, inst_id, c.opts, has_extra, extra, ops, c.nops, &bytes, &e_e, is32);
     if (!err.empty()) { st.asm_refused++; snprintf(rec, sizeof rec, "[%s,\"asm\",%u],", c.id.c_str(), unsigned(e_e)); per_case += rec; return; }
     if (e_rw != Error::kOk) {
       violation("Q:" + c.name + ":" + c.sig + ":query_rw_info-fails", "assembler encodes the instruction (" + bytes + ") but query_rw_info returns error " + std::to_string(unsigned(e_rw)), c);
@@ -1124,7 +1330,7 @@ struct Runner {
 
     // image constraints
     ImageFix fx;
-    fx.x87 = c.has('x'); fx.mmx = c.has('m'); fx.div = c.has('d'); fx.ecx01 = c.has('c');
+    fx.x87 = c.has('x'); fx.mmx = c.has('m'); fx.div = c.has('d'); fx.ecx01 = c.has('c'); fx.is32 = is32;
     int kmem = 0;
     for (int i = 0; i < c.nops; i++) {
       const POp& o = c.ops[i];
@@ -1133,7 +1339,7 @@ struct Runner {
       if (o.it != "none" && (o.it == "xmm" || o.it == "ymm" || o.it == "zmm")) { fx.vs_reg = int(o.iid & 31); fx.vs_bits = c.vs ? c.vs : 32; }
       if (o.bt != "none" && fx.n_gp < 4) {
         uint64_t idxv = 0;
-        if (o.it == "gp64") { idxv = rng.below(8) * 8; fx.gp_id[fx.n_gp] = int(o.iid & 15); fx.gp_val[fx.n_gp] = idxv; fx.n_gp++; }
+        if (o.it == "gp64" || o.it == "gp32") { idxv = rng.below(8) * 8; fx.gp_id[fx.n_gp] = int(o.iid & 15); fx.gp_val[fx.n_gp] = idxv; fx.n_gp++; }
         fx.gp_id[fx.n_gp] = int(o.bid & 15); fx.gp_val[fx.n_gp] = ea - uint64_t(o.disp) - (idxv << o.shift); fx.n_gp++;
       }
       if (fx.div) fx.div_mem = true;
@@ -1147,7 +1353,7 @@ struct Runner {
       snprintf(rec, sizeof rec, "[%s,\"nohost\"],", c.id.c_str()); per_case += rec; return;
     }
     bool x87 = c.has('x'), nondet = c.has('n');
-    Fn fn = (Fn)(CODE);
+    Fn fn = (Fn)(code_base);
     std::string kbase = c.name + ":" + c.sig;
     std::string mbase = kbase;
     bool zmask = (c.opts & 0x800000u) != 0;
@@ -1176,10 +1382,10 @@ struct Runner {
         if (shared) continue;
         Operand ops2[6];
         for (int j = 0; j < c.nops; j++) ops2[j] = ops[j];
-        ops2[i] = x86::Mem(x86::gpq(uint32_t(c.mb)), 0, o.rm_size());
+        ops2[i] = is32 ? x86::Mem(x86::gpd(uint32_t(c.mb)), 0, o.rm_size()) : x86::Mem(x86::gpq(uint32_t(c.mb)), 0, o.rm_size());
         st.m_forms++;
         char ks[64]; snprintf(ks, sizeof ks, ":op%d", i);
-        Error ev = InstAPI::validate(Arch::kX64, bi, ops2, size_t(c.nops));
+        Error ev = InstAPI::validate(ARCH, bi, ops2, size_t(c.nops));
         if (ev == Error::kInvalidImmediate && has_imm) continue;   // the immediate of this case only fits the register form (e.g. and rax, 0x80000000 -> and eax)
         if (ev != Error::kOk) {
           violation("M:" + mbase + ks + ":validator-rejects", "operand " + std::to_string(i) + " is reported kRegMem with rm_size=" + std::to_string(o.rm_size()) +
@@ -1187,7 +1393,7 @@ struct Runner {
           continue;
         }
         std::string mbytes; Error me;
-        std::string merr = make_code(1 + int(mforms.size()), inst_id, c.opts, has_extra, extra, ops2, c.nops, &mbytes, &me);
+        std::string merr = make_code(1 + int(mforms.size()), inst_id, c.opts, has_extra, extra, ops2, c.nops, &mbytes, &me, is32);
         if (!merr.empty()) {
           violation("M:" + mbase + ks + ":assembler-rejects", "operand " + std::to_string(i) + " is reported kRegMem with rm_size=" + std::to_string(o.rm_size()) +
                     " but the assembler rejects the memory form (error " + std::to_string(unsigned(me)) + "); " + rw_text(rw, c.nops), c);
@@ -1198,22 +1404,125 @@ struct Runner {
       }
     }
 
+    // uniqueness probe (fx 'u'): the two register operands (or destination and vector index) that share a register
+    bool uniq_probe = c.has('u'), uniq_flagged = false, uniq_both_read = false;
+    int uniq_a = -1, uniq_b = -1;
+    if (uniq_probe) {
+      st.uniq_cases++;
+      auto vec_of = [&](int i, uint32_t* id, bool* is_index) -> bool {
+        *is_index = false;
+        if (ops[i].is_reg() && ops[i].as<Reg>().is_vec()) { *id = ops[i].as<Reg>().id(); return true; }
+        if (ops[i].is_mem() && ops[i].as<x86::Mem>().has_index_reg() && Reg::from_type_and_id(ops[i].as<x86::Mem>().index_type(), 0).is_vec()) { *id = ops[i].as<x86::Mem>().index_id(); *is_index = true; return true; }
+        return false;
+      };
+      for (int i = 0; i < c.nops && uniq_a < 0; i++) for (int j = i + 1; j < c.nops; j++) {
+        uint32_t a_id, b_id; bool ai, bi2;
+        if (vec_of(i, &a_id, &ai) && vec_of(j, &b_id, &bi2) && a_id == b_id) { uniq_a = i; uniq_b = j; break; }
+      }
+      if (uniq_a >= 0) {
+        const OpRWInfo& oa = rw.operand(size_t(uniq_a)); const OpRWInfo& ob = rw.operand(size_t(uniq_b));
+        uniq_flagged = oa.is_unique() || ob.is_unique();
+        bool ra = ops[uniq_a].is_mem() ? oa.has_op_flag(OpRWFlags::kMemIndexRead) : oa.is_read();
+        bool rb = ops[uniq_b].is_mem() ? ob.has_op_flag(OpRWFlags::kMemIndexRead) : ob.is_read();
+        uniq_both_read = ra && rb;
+      }
+      else uniq_probe = false;
+    }
+    // kMovOp: consumed by the allocator for two-operand register moves without an extra register (it deletes `op r, r`)
+    bool movop = rw.has_inst_flag(InstRWFlags::kMovOp);
+    bool movop_judged = movop && !has_extra && c.nops == 2 && ops[0].is_reg() && ops[1].is_reg() && !x87;
+    if (movop) { if (movop_judged) st.movop_cases++; else st.movop_flag_not_consumed++; }
+
+    // is the non-GP register byte i inside the size of the register operand that owns it (xmm: 16, ymm: 32, k / mm: 8)?
+    auto zx_in_size = [&](size_t i) -> bool {
+      if (i < F_VEC) return true;
+      if (i >= F_K) return i < F_MEM;
+      int oi = A.op_of[i];
+      uint32_t osz = (oi >= 0 && oi < c.nops && ops[oi].is_reg()) ? ops[oi].as<Reg>().size() : 0;
+      return (i - F_VEC) % 64 < osz;
+    };
+    // did this run leave every byte of the plain write mask of the register that contains i alone? Then the write itself did not take
+    // place (conditional writes: cmpxchg, lar/lsl, cmov-like forms) and neither did its zero extension: no verdict from this run.
+    auto op_unwritten = [&](size_t i, const State& a, const State& b) -> bool {
+      size_t start, len;
+      if (i < F_VEC) { start = i - i % 8; len = 8; }
+      else if (i < F_K) { start = F_VEC + (i - F_VEC) / 64 * 64; len = 64; }
+      else { start = i - i % 8; len = 8; }
+      for (size_t k = start; k < start + len; k++) if (A.wr[k] && !A.zx[k] && a.b[k] != b.b[k]) return false;
+      return true;
+    };
+
     for (uint32_t img = 0; img < n_images; img++) {
       gen_image(rng, in, fx, (img % 4 == 3) ? -1 : int(rng.below(8)));
       st.runs++;
-      int res = run_image(in, out, fn);
+      int res = run_image(in, out, fn, is32);
       if (res != RES_OK) {
         if (res == RES_ILL) { ill++; st.sigill++; } else if (res == RES_SEGV) { segv++; st.segv++; } else if (res == RES_FPE) { fpe++; st.fpe++; }
         else { other++; if (res == RES_BUS) st.bus++; else st.trap++; }
+        if (res == RES_ILL && uniq_probe) {
+          // dst == src on purpose: #UD is what the ISA prescribes for instructions that need distinct registers. The answer must keep an
+          // allocator from producing this: kUnique on one of the two operands, or both reported as read (live at the same time).
+          st.uniq_ud++;
+          if (uniq_flagged) st.uniq_ud_flagged++;
+          else if (uniq_both_read) st.uniq_ud_both_read++;
+          else violation("U:" + kbase + ":" + opn(uniq_a) + "+" + opn(uniq_b) + ":same-register-is-UD-but-neither-kUnique-nor-both-read",
+                         "executing " + bytes + " with operands " + std::to_string(uniq_a) + " and " + std::to_string(uniq_b) + " in one register raises #UD (distinct registers execute), but the answer neither flags kUnique "
+                         "nor reports both operands as read - an allocator is free to give them one register; " + rw_text(rw, c.nops), c);
+          break;
+        }
         if (res == RES_ILL) {
           if (on_host && e_f == Error::kOk)
-            violation("F:" + kbase + ":sigill-with-reported-features", "SIGILL executing " + bytes + " although every feature reported by query_features (" + feat_json(Arch::kX64, feat) + ") is present on the host", c);
+            violation("F:" + kbase + ":sigill-with-reported-features", "SIGILL executing " + bytes + " although every feature reported by query_features (" + feat_json(ARCH, feat) + ") is present on the host", c);
           break;   // no point in more images
         }
         if (img >= 15 && ok_runs == 0) break;   // always faulting
         continue;
       }
-      ok_runs++; st.runs_ok++;
+      ok_runs++; st.runs_ok++; if (is32) st.runs32++;
+
+      if (uniq_probe) { st.uniq_no_ud++; if (uniq_flagged) st.uniq_no_ud_flagged++; }
+
+      // (Z) every GP byte reported zero-extended holds zero after the run, whether the run changed it or not (a byte the CPU keeps is a
+      // result that depends on state reported as overwritten). The statement gives byte precision to GP registers only: vector, mask and
+      // MMX bytes are counted, not judged here - for them the register-level rule of the R check applies (a reported-overwritten byte
+      // inside the operand's own size that keeps its old value when the operand is not reported as read).
+      if (!(c.has('z') && (out.fl & 0x4))) {
+        for (size_t i = 0; i < F_MEM; i++) {
+          if (!A.zx[i]) continue;
+          if (i >= F_MM && !fx.mmx) continue;
+          if (i < F_VEC) {
+            st.zext_checked++; if (out.b[i] == in.b[i]) st.zext_unchanged_checked++;
+            if (out.b[i] != 0 && op_unwritten(i, in, out)) st.zext_nonzero_operand_not_written++;
+            else if (out.b[i] != 0)
+              violation("W:" + kbase + ":" + opn(A.op_of[i]) + ":zero-extended-byte-nonzero",
+                        "byte " + loc_name(i) + " is reported zero-extended but holds 0x" + hexstr(&out.b[i], 1) + (out.b[i] == in.b[i] ? " (its old value)" : "") + " after " + bytes + "; " + rw_text(rw, c.nops) + "; diff: " + diff_text(in, out), c);
+          }
+          else if (zx_in_size(i)) { st.zext_vec_checked++; if (out.b[i] != 0) st.zext_vec_nonzero++; }
+          else { st.zext_vec_beyond_operand_size++; if (out.b[i] != 0) st.zext_vec_beyond_nonzero++; }
+        }
+      }
+      else st.zext_skipped_undefined++;
+
+      // (V) kMovOp: with distinct registers the written bytes of the destination equal the source's, with one register nothing in the
+      // write mask changes; status flags are never touched
+      if (movop_judged) {
+        const Reg& d = ops[0].as<Reg>(); const Reg& s2 = ops[1].as<Reg>();
+        auto base_of = [&](const Reg& r) -> size_t {
+          return r.is_gp() ? F_GP + 8 * (r.id() & 15) : r.is_vec() ? F_VEC + 64 * (r.id() & 31) : r.reg_type() == RegType::kMask ? F_K + 8 * (r.id() & 7) : F_MM + 8 * (r.id() & 7);
+        };
+        size_t db = base_of(d), sb = base_of(s2), lim = d.is_vec() ? 64 : 8;
+        bool same = db == sb;
+        if (same) st.movop_runs_same_reg++; else st.movop_runs_distinct++;
+        std::string bad;
+        for (size_t b = 0; b < lim && bad.empty(); b++) {
+          if (!A.wr[db + b] || A.zx[db + b]) continue;
+          if (out.b[db + b] != in.b[sb + b]) bad = loc_name(db + b) + " holds 0x" + hexstr(&out.b[db + b], 1) + ", source byte " + loc_name(sb + b) + " held 0x" + hexstr(&in.b[sb + b], 1);
+        }
+        if (bad.empty() && (out.fl ^ in.fl) & FL_STATUS) bad = "status flags changed: " + fl_names((out.fl ^ in.fl) & FL_STATUS);
+        if (!bad.empty())
+          violation("V:" + kbase + ":kMovOp-reported-but-not-a-plain-move", "query_rw_info flags the instruction kMovOp (the allocator deletes it when both operands get one register) but executing " + bytes +
+                    (same ? " with one register" : " with distinct registers") + ": " + bad + "; " + rw_text(rw, c.nops) + "; diff: " + diff_text(in, out), c);
+      }
 
       // (W) every changed byte / flag must be covered by the reported writes
       bool changed = out.fl != in.fl;
@@ -1227,10 +1536,7 @@ struct Runner {
           if (IMPRECISE.size() < 40 && !IMPRECISE_KEYS.count(kbase)) { IMPRECISE_KEYS.insert(kbase); IMPRECISE.push_back(kbase + " " + loc_name(i) + " changed outside write|extend mask; " + rw_text(rw, c.nops)); }
           continue;
         }
-        if (A.wr[i]) {
-          if (A.zx[i] && i < F_VEC) { st.zext_checked++; if (out.b[i] != 0) violation("W:" + kbase + ":" + opn(A.op_of[i]) + ":zero-extended-byte-nonzero", "byte " + loc_name(i) + " is reported zero-extended but holds 0x" + hexstr(&out.b[i], 1) + " after " + bytes + "; " + rw_text(rw, c.nops) + "; diff: " + diff_text(in, out), c); }
-          continue;
-        }
+        if (A.wr[i]) continue;   // (zero-extended bytes: judged above)
         std::string what;
         if (A.op_of[i] >= 0) {
           const OpRWInfo& o = A.op_of[i] == 6 ? rw.extra_reg() : rw.operand(size_t(A.op_of[i]));
@@ -1260,6 +1566,7 @@ struct Runner {
           if (A.rd[i]) continue;
           if (i >= F_VEC && i < F_MEM && reg_any(A.rd, i)) continue;  // vector / mask / MMX: operand-level
           if (i >= F_GP + 32 && i < F_GP + 40) continue;            // rsp
+          if (is32 && ((i < F_VEC && (i >= 64 || i % 8 >= 4)) || (i >= F_VEC + 64 * 8 && i < F_K))) continue;   // not visible in 32-bit mode
           if (i >= F_MM && i < F_MEM && !fx.mmx) continue;
           if (i >= F_VEC && i < F_K && !HAVE_512 && ((i - F_VEC) / 64 >= 16 || (i - F_VEC) % 64 >= 32)) continue;
           if (i >= F_K && i < F_MM && !HAVE_512) continue;
@@ -1269,7 +1576,7 @@ struct Runner {
         uint32_t fl_flip = FL_STATUS & ~A.rd_fl;
         in2.fl ^= fl_flip;
         st.r_runs++; r_done++;
-        int res2 = run_image(in2, out2, fn);
+        int res2 = run_image(in2, out2, fn, is32);
         std::string bad;
         bool fault2 = res2 != RES_OK;
         if (!fault2) {
@@ -1281,7 +1588,14 @@ struct Runner {
               // reported write mask (not the extension mask: legacy SSE leaves the upper lanes alone) of an operand that
               // is not reported as read, whose old content shows in the result, was in fact read (merge-masking, partial
               // writes). Memory that is simply not stored to stays exempt.
+              // A byte reported zero-extended is reported overwritten too: inside the operand's own size it may not keep its old value
+              // either (beyond it - legacy SSE next to the upper lanes - the old exemption stays).
               bool reported_written = i < F_MEM && A.wr[i] && !A.zx[i];
+              if (i < F_MEM && A.wr[i] && A.zx[i]) {
+                if (!zx_in_size(i)) st.zext_passthrough_beyond_size++;
+                else if (op_unwritten(i, in, out) && op_unwritten(i, in2, out2)) st.zext_passthrough_operand_not_written++;
+                else { st.zext_passthrough_judged++; reported_written = true; }
+              }
               // bsf/bsr with a zero source: the destination is architecturally undefined (fx 'z'), not a defined result
               if (c.has('z') && ((out.fl | out2.fl) & 0x4)) reported_written = false;
               if (!reported_written) { st.passthrough_seen++; continue; }
@@ -1325,13 +1639,17 @@ struct Runner {
             State in3 = in, out3;
             for (size_t i : g.idx) in3.b[i] = in2.b[i];
             in3.fl ^= g.fl;
-            int r3 = run_image(in3, out3, fn);
+            int r3 = run_image(in3, out3, fn, is32);
             bool differs = r3 != RES_OK;
             if (!differs) {
               for (size_t i = 0; i < F_SIZE && !differs; i++) {
                 if (i >= F_MM && i < F_MEM && !fx.mmx) continue;
                 if (out.b[i] == out3.b[i]) continue;
-                if (in3.b[i] != in.b[i] && out.b[i] == in.b[i] && out3.b[i] == in3.b[i]) continue;
+                if (in3.b[i] != in.b[i] && out.b[i] == in.b[i] && out3.b[i] == in3.b[i]) {
+                  bool rep_wr = i < F_MEM && A.wr[i] && (!A.zx[i] || (zx_in_size(i) && !(op_unwritten(i, in, out) && op_unwritten(i, in3, out3))));
+                  if (c.has('z') && ((out.fl | out3.fl) & 0x4)) rep_wr = false;
+                  if (!rep_wr) continue;
+                }
                 differs = true;
               }
               uint32_t fd = (out.fl ^ out3.fl) & ~c.uf;
@@ -1357,15 +1675,15 @@ struct Runner {
           a_in.gp(c.mb) = uint64_t(uintptr_t(ARENA_P)) + EA_M_OFF;
           memcpy(a_in.b + F_MEM + EA_M_OFF, a_in.b + rbase, mf.size);
           st.m_runs += 2; m_done++;
-          int rr = run_image(a_in, a_outR, fn);
-          int rm = run_image(a_in, a_outM, (Fn)(CODE + SLOT * (1 + mi)));
+          int rr = run_image(a_in, a_outR, fn, is32);
+          int rm = run_image(a_in, a_outM, (Fn)(code_base + SLOT * (1 + mi)), is32);
           char ks[64]; snprintf(ks, sizeof ks, ":op%d", mf.op);
           if (rr != RES_OK) continue;
           if (rm != RES_OK) {
             st.m_fault++;
             if (rm == RES_ILL) violation("M:" + mbase + ks + (zmask && mf.op == 0 ? ":sigill-zeroing-mask-with-memory-destination" : ":sigill"),
                                           "operand " + std::to_string(mf.op) + " is reported kRegMem (rm_size=" + std::to_string(mf.size) + ") but the memory form raises SIGILL on the host; rm_feature is " +
-                                          (rw.rm_feature() ? feature_name(Arch::kX64, rw.rm_feature()) : std::string("none")) + "; " + rw_text(rw, c.nops), c);
+                                          (rw.rm_feature() ? feature_name(ARCH, rw.rm_feature()) : std::string("none")) + "; " + rw_text(rw, c.nops), c);
             else violation("M:" + mbase + ks + ":fault", "register form executes but the memory form faults (" + std::to_string(rm) + ") on the same image with memory = low bytes of the register; " + rw_text(rw, c.nops), c);
             continue;
           }
@@ -1389,6 +1707,7 @@ struct Runner {
         }
       }
     }
+    if (ok_runs && is32) st.executed_cases32++;
     if (ok_runs) st.executed_cases++;
     else st.all_fault_cases++;
     if (changed_any) st.nontrivial_cases++;
@@ -1420,16 +1739,22 @@ static int mode_run(const Args& args) {
   }
   s += "],\"per_case\":[" + R.per_case;
   if (s.back() == ',') s.pop_back();
-  char b[1024];
+  char b[2048];
   const Stats& t = R.st;
   snprintf(b, sizeof b, "],\"cases\":%llu,\"executed_cases\":%llu,\"nontrivial_cases\":%llu,\"runs\":%llu,\"runs_ok\":%llu,\"sigill\":%llu,\"segv\":%llu,\"fpe\":%llu,\"bus\":%llu,\"trap\":%llu,"
            "\"r_runs\":%llu,\"r_flipped\":%llu,\"m_forms\":%llu,\"m_runs\":%llu,\"m_fault\":%llu,\"asm_refused\":%llu,\"unsupported\":%llu,\"all_fault_cases\":%llu,"
-           "\"changed_bytes\":%llu,\"flags_changed\":%llu,\"zext_checked\":%llu,\"passthrough_seen\":%llu,\"nongp_outside_mask\":%llu",
+           "\"changed_bytes\":%llu,\"flags_changed\":%llu,\"zext_checked\":%llu,\"passthrough_seen\":%llu,\"nongp_outside_mask\":%llu,"
+           "\"zext_unchanged_checked\":%llu,\"zext_vec_checked\":%llu,\"zext_vec_beyond\":%llu,\"zext_vec_beyond_nonzero\":%llu,\"zext_skipped_undefined\":%llu,\"zext_vec_nonzero\":%llu,\"zext_passthrough_judged\":%llu,\"zext_passthrough_beyond_size\":%llu,\"zext_nonzero_operand_not_written\":%llu,\"zext_passthrough_operand_not_written\":%llu,"
+           "\"movop_cases\":%llu,\"movop_runs_distinct\":%llu,\"movop_runs_same_reg\":%llu,\"movop_flag_not_consumed\":%llu,"
+           "\"uniq_cases\":%llu,\"uniq_ud\":%llu,\"uniq_ud_flagged\":%llu,\"uniq_ud_both_read\":%llu,\"uniq_no_ud\":%llu,\"uniq_no_ud_flagged\":%llu,\"cases32\":%llu,\"executed_cases32\":%llu,\"runs32_ok\":%llu",
            (unsigned long long)t.cases, (unsigned long long)t.executed_cases, (unsigned long long)t.nontrivial_cases, (unsigned long long)t.runs, (unsigned long long)t.runs_ok,
            (unsigned long long)t.sigill, (unsigned long long)t.segv, (unsigned long long)t.fpe, (unsigned long long)t.bus, (unsigned long long)t.trap,
            (unsigned long long)t.r_runs, (unsigned long long)t.r_locations_flipped, (unsigned long long)t.m_forms, (unsigned long long)t.m_runs, (unsigned long long)t.m_fault,
            (unsigned long long)t.asm_refused, (unsigned long long)t.unsupported, (unsigned long long)t.all_fault_cases,
-           (unsigned long long)t.changed_bytes, (unsigned long long)t.flags_changed, (unsigned long long)t.zext_checked, (unsigned long long)t.passthrough_seen, (unsigned long long)t.nongp_outside_mask);
+           (unsigned long long)t.changed_bytes, (unsigned long long)t.flags_changed, (unsigned long long)t.zext_checked, (unsigned long long)t.passthrough_seen, (unsigned long long)t.nongp_outside_mask,
+           (unsigned long long)t.zext_unchanged_checked, (unsigned long long)t.zext_vec_checked, (unsigned long long)t.zext_vec_beyond_operand_size, (unsigned long long)t.zext_vec_beyond_nonzero, (unsigned long long)t.zext_skipped_undefined, (unsigned long long)t.zext_vec_nonzero, (unsigned long long)t.zext_passthrough_judged, (unsigned long long)t.zext_passthrough_beyond_size, (unsigned long long)t.zext_nonzero_operand_not_written, (unsigned long long)t.zext_passthrough_operand_not_written,
+           (unsigned long long)t.movop_cases, (unsigned long long)t.movop_runs_distinct, (unsigned long long)t.movop_runs_same_reg, (unsigned long long)t.movop_flag_not_consumed,
+           (unsigned long long)t.uniq_cases, (unsigned long long)t.uniq_ud, (unsigned long long)t.uniq_ud_flagged, (unsigned long long)t.uniq_ud_both_read, (unsigned long long)t.uniq_no_ud, (unsigned long long)t.uniq_no_ud_flagged, (unsigned long long)t.cases32, (unsigned long long)t.executed_cases32, (unsigned long long)t.runs32);
   s += b;
   s += ",\"imprecise\":[";
   for (size_t i = 0; i < IMPRECISE.size(); i++) { if (i) s += ","; s += jstr(IMPRECISE[i]); }
